@@ -1,4 +1,5 @@
 """Pool discipline rules P1..P16 (DESIGN.md 4.4).  Each function records obligations on ctx."""
+import re
 from core import (AbsPaths, norm, L_call, L_variant, root_has, arms, assigns_to_return, const_of, CallSite,
                   returned_comparison, closure_arg_of, sig)
 from mir import place_str, op_place, op_str
@@ -137,6 +138,25 @@ def P6(ctx, facts):
     # dropped, below it it is parked - wherever the comparison lives (`idle.len() < max`, a bounded `try_push`, ...)
     import pooltable
     pooltable.push_table(ctx, facts)
+    # ... and, for every value of the bound (the table samples two): on the fully spliced hand-back, every growth of the idle
+    # sequence is dominated by an edge that establishes `idle.len() < max_idle_per_host` - the two operands being the length of
+    # that sequence and the configured bound (through whatever helper parameters they travel)
+    u = pooltable.unit_of(facts, pooltable.PUSH)
+    grows = [c for c in u.calls() if re.search(r"(vec::Vec|VecDeque).*::(push|push_back|push_front|insert)$", norm(c.name)) and "idle::Idle<" in " ".join(c.t.get("argtys") or [])]
+    ctx.floor("PoolInner::push|idle-growth-sites", len(grows), 1, "growth sites of the idle sequence in the hand-back")
+    for c in grows:
+        def is_bound(lab, c=c):
+            f = lt_fact(u, lab)
+            if f is None:
+                return False
+            a, b = f
+            ra, rb = u.roots(a), u.roots(b)
+            a_ok = any(x.kind == "call" and re.search(r"(vec::Vec|VecDeque).*::len$", norm(x.site.name)) for x in ra)
+            b_ok = any(x.kind == "arg" and x.desc.endswith("max_idle_per_host") for x in rb)
+            return a_ok and b_ok
+        ok, wit = u.guarded(c.bb, is_bound)
+        ctx.check(ok, "PoolInner::push|idle-push-bounded", "the growth of the idle list is dominated by the edge `len < config.max_idle_per_host`",
+                  "a path reaches the growth of the idle list without passing `len < config.max_idle_per_host`", c.where(), u.path_desc(wit))
     # config immutable: no assignment to a `config` field of PoolInner outside PoolInner::new
     n = 0
     for f in facts.fns.values():
